@@ -286,13 +286,20 @@ Definition join_align (s : st) (b1 b2 : nat) (zero1 : bool) : result st :=
         if a2 >? a1 then (if zero1 then Ok (set_align s (aset b1 a2 (align s))) else Err AssertErr) else Ok s
     end.
 
+(* symbols of block2: to the end of a non-empty block1; when block1 is empty every symbol keeps its side *)
+Definition join_syms (s : st) (b1 b2 : nat) (zero1 : bool) : result st :=
+  if zero1 then
+    let '(syms, s) := get_refs s b2 in
+    Ok (fold_left (fun s sy => set_direct s sy (Some b1) (sym_at_end s sy)) syms s)
+  else do_retarget s b2 (Some b1) true.
+
 (* returns None when the blocks are not joinable (UnjoinableBlocksError) *)
 Definition join_blocks (s : st) (b1 b2 : nat) : result (option st) :=
   let '(ok, s) := are_joinable s b1 b2 in
   if negb ok then Ok None
   else
   let x1 := the_blk s b1 in let x2 := the_blk s b2 in
-  do s <- do_retarget s b2 (Some b1) (negb (bsize x1 =? 0));
+  do s <- join_syms s b1 b2 (bsize x1 =? 0);
   let s := join_cfg s b1 b2 (bkind_eqb (bk x2) KCode) (bsize x1 =? 0) in
   let s := join_otabs s b1 b2 (bsize x1) in
   let s := join_cfi s b1 b2 (bsize x1) in
